@@ -102,6 +102,40 @@ def scenario_dict_alias_rule(idx: Index, res: Result, rule: str) -> None:
 
 
 
+def model_per_scenario_rule(idx: Index, res: Result, rule: str = "FRESH") -> None:
+    """Shared by C06, C07 and C04: a file-based manager constructs one model object per scenario."""
+    # file-based managers: every scenario is given a model object made for it inside the loop over the scenarios
+    inst = idx.func(SM_SD, "ScenarioManagerSd.instantiate_model")
+    nmod = 0
+    for lp in [n for n in walk_no_nested(inst.node) if isinstance(n, ast.For)]:
+        for st in ast.walk(lp):
+            if isinstance(st, ast.Assign) and isinstance(st.targets[0], ast.Attribute) and st.targets[0].attr == "model" \
+                    and isinstance(st.targets[0].value, ast.Name) and st.targets[0].value.id in {x.id for x in ast.walk(lp.target) if isinstance(x, ast.Name)}:
+                nmod += 1
+                v = st.value
+                if isinstance(v, ast.Name):
+                    defs = [a for a in ast.walk(lp) if isinstance(a, ast.Assign) and isinstance(a.targets[0], ast.Name) and a.targets[0].id == v.id]
+                    v = defs[0].value if len(defs) == 1 else v
+                ok = isinstance(v, ast.Call) and call_name(v) not in ("get", "setdefault", "pop")
+                res.check(rule, "instantiate_model builds a model object per scenario", ok, inst.loc(st), inst.qual, norm_stmt(st)[:90],
+                          "instantiate_model gives a scenario the model %s, which is not an object constructed for this scenario in this iteration: "
+                          "scenarios that receive the same object share its memo and its equations, so one scenario's run specs and settings "
+                          "show up in the other's results" % src(st.value)[:60], key=rule + "/instantiate_model/model-per-scenario")
+    res.floor("model installations in instantiate_model", nmod, 1)
+
+
+
+def clone_is_new_model_rule(idx: Index, res: Result, rule: str = "FRESH") -> None:
+    """Shared by C06 and C16: get_cloned_model builds a new Model on every path - it never hands the registered object back."""
+    clone = idx.func(SM_SD, "ScenarioManagerSd.get_cloned_model")
+    # every table of MODEL_STATE is either built fresh by the Model constructor / element constructors or copied
+    rets = [n for n in walk_no_nested(clone.node) if isinstance(n, ast.Return) and n.value is not None and not (isinstance(n.value, ast.Constant))]
+    newm = [n for n in walk_no_nested(clone.node) if isinstance(n, ast.Assign) and isinstance(n.value, ast.Call) and call_name(n.value) == "Model"]
+    res.check(rule, "the clone is a new Model object", len(newm) == 1 and all(src(r.value) == src(newm[0].targets[0]) for r in rets),
+              clone.loc(), clone.qual, norm_stmt(newm[0])[:90] if newm else "", "get_cloned_model does not build and return a new Model",
+              key=rule + "/get_cloned_model/new-model")
+
+
 def check_c06(idx: Index, tier: str, res: Result) -> None:
     res.explanation = ("Alias/ownership analysis of scenario construction: nothing in the result-relevant state of a scenario's "
                        "model (Model.{equations, memo, points, constants, stocks, flows, biflows, converters, functions, fn}) may be "
@@ -158,12 +192,7 @@ def check_c06(idx: Index, tier: str, res: Result) -> None:
             else:
                 res.note("clone shares %s by reference (not result-relevant state by table A.5)" % norm_stmt(n)[:80])
     res.floor("attribute assignments in get_cloned_model", nassign, 5)
-    # every table of MODEL_STATE is either built fresh by the Model constructor / element constructors or copied
-    rets = [n for n in walk_no_nested(clone.node) if isinstance(n, ast.Return) and n.value is not None and not (isinstance(n.value, ast.Constant))]
-    newm = [n for n in walk_no_nested(clone.node) if isinstance(n, ast.Assign) and isinstance(n.value, ast.Call) and call_name(n.value) == "Model"]
-    res.check("FRESH", "the clone is a new Model object", len(newm) == 1 and all(src(r.value) == src(newm[0].targets[0]) for r in rets),
-              clone.loc(), clone.qual, norm_stmt(newm[0])[:90] if newm else "", "get_cloned_model does not build and return a new Model",
-              key="FRESH/get_cloned_model/new-model")
+    clone_is_new_model_rule(idx, res)
     add = idx.func(SM_SD, "ScenarioManagerSd.add_scenarios")
     cons = [c for c in iter_calls(add.node) if call_name(c) == "SimulationScenario"]
     ok = bool(cons) and all(any(k.arg == "model" and isinstance(k.value, ast.Call) and call_name(k.value) == "get_cloned_model" for k in c.keywords) for c in cons)
@@ -172,6 +201,8 @@ def check_c06(idx: Index, tier: str, res: Result) -> None:
     in_loop = any(isinstance(lp, ast.For) and any(x is c for x in ast.walk(lp)) for lp in ast.walk(add.node) for c in cons)
     res.check("FRESH", "the clone is made inside the per-scenario loop", in_loop, add.loc(), add.qual, "for name, scenario in ...",
               "the model is cloned once for all scenarios", key="FRESH/add_scenarios/loop")
+
+    model_per_scenario_rule(idx, res, "FRESH")
 
     scenario_dict_alias_rule(idx, res, "ALIAS")
 
@@ -212,6 +243,17 @@ def check_c06(idx: Index, tier: str, res: Result) -> None:
                   "a new instance: scenarios of the manager share agents, events and statistics", key="FRESH/ScenarioManagerHybrid.instantiate_model")
     dcs = [n for n in walk_no_nested(hy.node) if isinstance(n, ast.Assign) and isinstance(n.value, ast.Call) and call_name(n.value) == "deepcopy"]
     in_loop = bool(dcs) and all(any(isinstance(lp, ast.For) and any(x is d for x in ast.walk(lp)) for lp in ast.walk(hy.node)) for d in dcs)
+    # after the deep copy nothing of the base model is put back into the copy by reference (collector, scheduler, tables)
+    for st in ast.walk(hy.node):
+        if isinstance(st, ast.Assign) and isinstance(st.targets[0], ast.Attribute) and isinstance(st.targets[0].value, ast.Name) \
+                and st.targets[0].value.id == "scenario":
+            def leaves(e):
+                return leaves(e.body) + leaves(e.orelse) if isinstance(e, ast.IfExp) else [e]
+            shared = [e for e in leaves(st.value) if isinstance(e, ast.Attribute) and (dotted(e) or "").startswith("self.model.")]
+            res.check("FRESH", "hybrid: scenario.%s is the scenario's own object" % st.targets[0].attr, not shared, hy.loc(st), hy.qual, norm_stmt(st)[:100],
+                      "scenario.%s is set to %s, an object of the manager's base model: every scenario of the manager (and the registered model) then "
+                      "works on that one object" % (st.targets[0].attr, src(shared[0]) if shared else ""),
+                      key="FRESH/ScenarioManagerHybrid.instantiate_model/shared-%s" % st.targets[0].attr)
     res.check("FRESH", "hybrid deep copy is made per scenario", in_loop, hy.loc(), hy.qual, "deepcopy(self.model)",
               "the hybrid model is copied once for all scenarios", key="FRESH/ScenarioManagerHybrid.instantiate_model/loop")
 
@@ -429,6 +471,10 @@ def check_c07(idx: Index, tier: str, res: Result) -> None:
 
     # a scenario's settings tables are its own: otherwise another scenario's settings determine this scenario's results
     scenario_dict_alias_rule(idx, res, "OWN")
+    model_per_scenario_rule(idx, res, "OWN")
+    # the session channel: run specs given as session settings reach the grid the session steps over
+    from .channels import session_grid_rules
+    session_grid_rules(idx, res, "SESSION")
 
     # ---- MERGE: siblings --------------------------------------------------------------------------------------------------------
     for qual in ("ScenarioManagerSd.add_scenarios", "ScenarioManagerSd.load_scenarios"):
